@@ -165,7 +165,7 @@ let op_of (toks : string list) : fop =
   | ["update"; ty; idx; v; flags; time] -> let t = ptype_of ty in FUpdate (t, nn idx, meas_of t v flags time)
   | ["handler"; a; b] -> FHandler (nn a, nn b)
   | ["appiin"; v] -> FAppIin (nn v)
-  | ["disconnect"] -> FDisconnect
+  | ["disconnect"] | ["bounce"] -> FDisconnect
   | _ -> failwith ("bad op " ^ String.concat "_" toks)
 
 let run_ofull_engine (s : script) : string list =
